@@ -24,7 +24,7 @@ EXPLANATION = (
     "R6 check value: C06 (same _write). Float truncation off the 0.1 grid is not decided."
 )
 ASSUMPTIONS = ["vendor tables transcribed in sa/spec/tables.py (DESIGN Appendix A) are the oracle", "values outside the vendor's valid ranges are outside the property's quantifier"]
-FLOORS = {"C04.R1": 40, "C04.R2": 30, "C04.R3": 30, "C04.R4": 14, "C04.R5": 6, "C04.R6": 1, "C04.R7": 1, "C04.R8": 7}
+FLOORS = {"C04.R1": 40, "C04.R2": 30, "C04.R3": 30, "C04.R4": 14, "C04.R5": 6, "C04.R6": 1, "C04.R7": 1, "C04.R8": 7, "C04.R9": 1}
 
 
 def run(ctx):
@@ -36,6 +36,10 @@ def run(ctx):
     r5(ctx)
     r6(ctx)
     quick_timer_duration(ctx)
+    from . import c01
+    from .common import reuse as _reuse
+
+    _reuse(ctx, "C04.R9", [c01.r4], "the frame reaches the wire in one piece (header, payload, check bytes written back to back with no suspension in between), so what the console reads is the frame that was built (C01.R4)")
     from . import c09
     from .common import AT4_API, AT5_API, reuse
 
